@@ -1165,17 +1165,75 @@ def _poly_to_lin(p):
     return Lin(c, t)
 
 
+_FLIP_OP = {ast.Lt: ast.Gt, ast.Gt: ast.Lt, ast.LtE: ast.GtE, ast.GtE: ast.LtE,
+            ast.Eq: ast.Eq, ast.NotEq: ast.NotEq}
+_PARSE_CACHE = {}
+
+
+def _parse_expr(txt):
+    if txt not in _PARSE_CACHE:
+        try:
+            _PARSE_CACHE[txt] = ast.parse(txt, mode='eval').body
+        except SyntaxError:
+            _PARSE_CACHE[txt] = None
+    return _PARSE_CACHE[txt]
+
+
+def _strip_abs(x):
+    if isinstance(x, ast.Call) and len(x.args) == 1 and not x.keywords:
+        f = x.func
+        name = f.id if isinstance(f, ast.Name) else (
+            f.attr if isinstance(f, ast.Attribute) else None)
+        if name in ('abs', 'fabs', 'absolute'):
+            return x.args[0], True
+    return x, False
+
+
+def _is_zero(x):
+    return isinstance(x, ast.Constant) and isinstance(x.value, (int, float)) \
+        and x.value == 0
+
+
 def _guards(fact, pol, den_src):
-    """Does the path fact (test source, polarity) guarantee den_src != 0 ?"""
-    import re
-    f = fact.replace(' ', '')
-    d = den_src.replace(' ', '')
-    pats_true = [r'^abs\(%s\)>' % re.escape(d), r'^np\.abs\(%s\)>' % re.escape(d),
-                 r'^%s>0' % re.escape(d), r'^%s!=0' % re.escape(d),
-                 r'^%s>' % re.escape(d)]
-    pats_false = [r'^abs\(%s\)<' % re.escape(d), r'^abs\(%s\)<=' % re.escape(d),
-                  r'^np\.abs\(%s\)<=' % re.escape(d),
-                  r'^%s<=' % re.escape(d), r'^%s==0' % re.escape(d)]
+    """Does the path fact (test source, polarity) guarantee den_src != 0 ?
+
+    Decided on the parsed comparison, in either spelling (``d > c`` and
+    ``c < d`` are the same guard): with the denominator d (possibly inside
+    abs) on one side,  d > c / d != 0  true, or  d <= c / d < c / d == 0
+    false, exclude d == 0 (thresholds c are taken as non-negative)."""
+    t = _parse_expr(fact)
+    d = _parse_expr(den_src)
+    if t is None or d is None:
+        return False
+    if isinstance(t, ast.UnaryOp) and isinstance(t.op, ast.Not):
+        return _guards(ast.unparse(t.operand), not pol, den_src)
+    if not (isinstance(t, ast.Compare) and len(t.ops) == 1):
+        return False
+    dd = ast.dump(d)
+    left, right = t.left, t.comparators[0]
+    op = type(t.ops[0])
+    l0, labs = _strip_abs(left)
+    r0, rabs = _strip_abs(right)
+    if ast.dump(l0) == dd or ast.dump(left) == dd:
+        other, isabs = right, labs and ast.dump(left) != dd
+    elif ast.dump(r0) == dd or ast.dump(right) == dd:
+        other, isabs = left, rabs and ast.dump(right) != dd
+        op = _FLIP_OP.get(op)
+    else:
+        return False
+    if op is None:
+        return False
+    # now the fact reads  [abs](d) <op> other
     if pol:
-        return any(re.search(p, f) for p in pats_true)
-    return any(re.search(p, f) for p in pats_false)
+        if op is ast.Gt:
+            return True
+        if op is ast.NotEq and _is_zero(other):
+            return True
+        return False
+    if op in (ast.Lt, ast.LtE) and isabs:
+        return True
+    if op is ast.LtE:
+        return True
+    if op is ast.Eq and _is_zero(other):
+        return True
+    return False
